@@ -239,7 +239,7 @@ def evaluate_pipeline(chk, w, b, cf):
         if c.endswith("Iterator>::for_each") or c.endswith("SentenceFilter>::filter") or c.endswith("SentenceFilter::filter"):
             # the closure / call applies a SentenceFilter
             z = " ".join(str(a["const"].get("zst", "")) for a in t["args"] if "const" in a)
-            cl = [k for k in w.bodies if k.startswith(b.fn + "::{closure") and "#promoted" not in k]
+            cl = C.closure_keys(w, b.fn)
             applies = c.endswith("filter") or any(any((cfgmod.callee(t2) or "").endswith("SentenceFilter>::filter") or "SentenceFilter" in (cfgmod.callee(t2) or "") for _, t2 in cfgmod.calls(w.bodies[k][0])) for k in cl)
             if applies:
                 filt.append(bb)
@@ -266,7 +266,15 @@ def evaluate_rules(chk, w):
     loops = cf.natural_loops()
     names = b.names()
     it = absint.Interp(w, b, models=effects.EXTRA_MODELS, summaries=C.summaries(w))
-    counters = {l: n for l, n in names.items() if b.locals[l]["ty"] == "i32" and n.startswith("n_")}
+    # counters by structure: user variables of type i32 that are incremented inside a loop (their roles are derived below
+    # from the tables, the programmer's names are only used when they are the conventional ones)
+    loop_blocks = set().union(*loops.values()) if loops else set()
+    inc_locals = set()
+    for bb in loop_blocks:
+        for s in b.blocks[bb]["stmts"]:
+            if s["k"] == "assign" and not s["place"]["proj"] and s["place"]["local"] in names and b.locals[s["place"]["local"]]["ty"] == "i32":
+                inc_locals.add(s["place"]["local"])
+    counters = {l: "c%d" % l for l in sorted(inc_locals)}
     chk.floor("R20.4", "counters", len(counters), 7)
 
     def incs(o, env0):
@@ -298,7 +306,7 @@ def evaluate_rules(chk, w):
             continue
         outs = it.run(h, stop=set(cf.blocks) - blks, env=pre[0].env, cons=pre[0].cons, stop_at_entry_again=True, trace=pre[0].trace)
         n0 = len(pre[0].trace)
-        matched_l = [l for l, n in names.items() if n == "matched" and b.locals[l]["tk"] == "bool"]
+        matched_l = [l for l in sorted(it._loop_assigned_locals(h)) if l in names and b.locals[l]["tk"] == "bool" and C.loop_carried(b, cf, h, l)]
         for o in outs:
             if o.kind != "stop" or o.info != h:
                 continue
@@ -308,7 +316,7 @@ def evaluate_rules(chk, w):
             # order: reference first (the zip's left operand) - by symbol name order .0 / .1 of the item tuple
             r, s = labs[0][1], labs[1][1]
             inc = incs(o, pre[0].env)
-            if touched <= {"n_tp", "n_tn", "n_fp", "n_fn"}:
+            if len(touched) == 4:
                 table_char.setdefault((r, s), set()).add(tuple(sorted(inc.items())))
             else:
                 m_in = None
@@ -326,7 +334,38 @@ def evaluate_rules(chk, w):
                             teq = rr[1]
                 table_word.setdefault((r, s, m_in, teq), set()).add((tuple(sorted(inc.items())), m_out[1] if m_out[0] == "b" else "same"))
     W_ = "WordBoundary"
+    N_ = "NotWordBoundary"
     labs3 = ["WordBoundary", "NotWordBoundary", "Unknown"]
+    # roles: conventional names when present, otherwise from the defining cells of the tables
+    conv = {"c%d" % l: names[l] for l in inc_locals if names[l] in ("n_tp", "n_tn", "n_fp", "n_fn", "n_sys", "n_ref", "n_cor")}
+    role = dict(conv)
+    def single(tab, key):
+        g = tab.get(key)
+        if g and len(g) == 1:
+            inc = dict(list(g)[0][0] if isinstance(list(g)[0][0], tuple) and list(g)[0] and isinstance(list(g)[0][0][0], tuple) else list(g)[0])
+            ks = [k for k, v in inc.items() if v == 1]
+            return ks[0] if len(ks) == 1 and len(inc) == 1 else None
+        return None
+    if len(conv) < 7:
+        for key, nm in (((W_, W_), "n_tp"), ((N_, N_), "n_tn"), ((N_, W_), "n_fp"), ((W_, N_), "n_fn")):
+            c_ = single(table_char, key)
+            if c_ and c_ not in role:
+                role[c_] = nm
+        wsys = {k for (r, s, m_in, teq), g in table_word.items() if r != s and s == W_ for inc, _ in g for k, v in inc if v == 1}
+        wref = {k for (r, s, m_in, teq), g in table_word.items() if r != s and r == W_ and s != W_ for inc, _ in g for k, v in inc if v == 1}
+        if len(wsys) == 1 and len(wref) == 1:
+            role.setdefault(list(wsys)[0], "n_sys")
+            role.setdefault(list(wref)[0], "n_ref")
+            rest_ = {k for g in table_word.values() for inc, _ in g for k, v in inc} - wsys - wref
+            if len(rest_) == 1:
+                role.setdefault(list(rest_)[0], "n_cor")
+    chk.ob("R20.4", "counter-roles", sorted(role.values()) == sorted(["n_tp", "n_tn", "n_fp", "n_fn", "n_sys", "n_ref", "n_cor"]),
+           "could not identify the seven counters of evaluate (true/false positives/negatives; system, reference, correct words): %s" % role, site=C.site(b), nontrivial=False)
+    def tr_inc(inc):
+        return tuple(sorted((role.get(k, k), v) for k, v in inc))
+    table_char = {k: {tr_inc(i) for i in g} for k, g in table_char.items()}
+    table_word = {k: {(tr_inc(i), mo) for i, mo in g} for k, g in table_word.items()}
+    raw_to_role = {int(k[1:]): v for k, v in role.items()}
     n = 0
     for r in labs3:
         for s in labs3:
@@ -373,13 +412,26 @@ def evaluate_rules(chk, w):
     fouts = [o for o in it.run(0) if o.kind == "return"]
     triples = set()
     for o in fouts:
-        nz = forms.Normalizer(it, o, rename=lambda s_: re.sub(r"(hv:loop\d+:|m:)?_(\d+)", lambda m_: names.get(int(m_.group(2)), m_.group(0)), s_))
+        nz = forms.Normalizer(it, o, rename=lambda s_: re.sub(r"(hv:loop\d+:|m:)?_(\d+)", lambda m_: raw_to_role.get(int(m_.group(2)), names.get(int(m_.group(2)), m_.group(0))), s_))
         vals = {}
+        f64s = {}
         for l, nme in names.items():
-            if nme in ("precision", "recall", "f1") and b.locals[l]["ty"] == "f64":
+            if b.locals[l]["ty"] == "f64":
                 v = o.value_at((("L", l),))
                 if v[0] == "expr":
-                    vals.setdefault(nme, set()).add(_expr_str(nz, v))
+                    f64s[l] = _expr_str(nz, v)
+        by_name = {l: names[l] for l in f64s if names[l] in ("precision", "recall", "f1")}
+        if len(set(by_name.values())) < 3:
+            # structural roles: F1 is the quotient that contains two other metric expressions; of those two, precision is the
+            # one whose denominator involves the system-side counter (false positives / system words)
+            for l, e_ in f64s.items():
+                inner = [l2 for l2, e2 in f64s.items() if l2 != l and e2 in e_]
+                if len(inner) >= 2:
+                    by_name[l] = "f1"
+                    for l2 in inner:
+                        by_name[l2] = "precision" if ("n_fp" in f64s[l2] or "n_sys" in f64s[l2]) else "recall"
+        for l, nme in by_name.items():
+            vals.setdefault(nme, set()).add(f64s[l])
         for p_ in vals.get("precision", ()):
             for r_ in vals.get("recall", ()):
                 for f_ in vals.get("f1", ()):
